@@ -852,6 +852,8 @@ class Images(productmd.common.MetadataBase):
 
     def _validate_image_paths(self):
         for platform in self.images:
+            if not isinstance(self.images[platform], dict):
+                raise TypeError("Images of platform '%s' must be a dict: %r" % (platform, self.images[platform]))
             for image, path in self.images[platform].items():
                 if not isinstance(path, six.string_types):
                     raise TypeError("Image path must be a string: %r" % (path, ))
